@@ -6,12 +6,15 @@ THEOREMS = {
             "Backend.C03_dispatch_exact", "Backend.C03_dispatch_no_fault", "Backend.C03_pop_emits_dispatch",
             "Backend.C03_ids_unique", "Backend.C03_at_most_once", "Backend.C03_writes_only_of_popped",
             "Backend.C03_popLog_merge", "Backend.C03_nothing_written_before_pop", "Backend.C03_pop_writes_exactly",
-            "Backend.C03_writes_frozen_after_pop", "Backend.C03_exactly_once", "Backend.C03_fresh_inv", "Backend.c03Init_fresh",
+            "Backend.C03_writes_frozen_after_pop", "Backend.C03_exactly_once", "Backend.C03_fresh_ordInv", "Backend.C03_thread_order_blocks",
+            "Backend.C03_thread_order_at_sink", "Backend.C03_fresh_inv", "Backend.c03Init_fresh",
             "Backend.PA.runOps_closed", "Obligations.backendA_C03_structure", "Obligations.C03_extracted"],
     "C10": ["Backend.C10_conservation_under_faults", "Backend.C10_pop_on_every_path", "Backend.C10_process_makes_progress",
             "Backend.C10_write_fault_local", "Backend.C10_process_event_local", "Backend.C10_fault_schedule_constant",
             "Backend.C10_at_most_once_under_faults", "Backend.C10_flush_visits_every_sink",
             "Backend.C10_flush_fault_loses_nothing", "Backend.C10_flush_flag_raised", "Backend.C10_backtrace_without_init",
+            "Backend.C10_unfaulted_exactly_once", "Backend.C10_order_under_faults", "Backend.C10_write_fault_reported",
+            "Backend.C10_flush_fault_reported",
             "Backend.c10Init_fresh", "Backend.C03_dispatch_exact", "Obligations.backendA_C10_structure",
             "Obligations.C10_extracted"],
     "C08": ["Backend.C08_started_inv", "Backend.C08_cfg_constant", "Backend.C08_accounting",
